@@ -26,6 +26,7 @@ import (
 	"strconv"
 	"strings"
 	"testing"
+	"time"
 
 	"github.com/named-data/ndnd/fw/core"
 	"github.com/named-data/ndnd/fw/face"
@@ -64,7 +65,23 @@ func parseIName(s string) iname {
 var longLen = map[int]int{91: 65535, 92: 65536, 93: 65537, 94: 70000}
 var longVal = map[int][]byte{}
 
+// component numbers 61..69: siblings that differ in type or in the byte form of a number but print alike
+// (segment 5 as 05 / 00 05 / 00 00 00 05; the same value under the other numeric conventions and as a generic component)
+type typedComp struct {
+	typ enc.TLNum
+	val []byte
+}
+
+var typedComps = map[int]typedComp{
+	61: {50, []byte{5}}, 62: {50, []byte{0, 5}}, 63: {50, []byte{0, 0, 0, 5}},
+	64: {52, []byte{5}}, 65: {54, []byte{5}}, 66: {56, []byte{5}}, 67: {58, []byte{5}},
+	68: {8, []byte{5}}, 69: {52, []byte{0, 5}},
+}
+
 func comp(k int) enc.Component {
+	if tc, ok := typedComps[k]; ok {
+		return enc.Component{Typ: tc.typ, Val: append([]byte{}, tc.val...)}
+	}
 	if n, ok := longLen[k]; ok {
 		v, have := longVal[k]
 		if !have {
@@ -90,6 +107,17 @@ func (n iname) enc() enc.Name {
 func unintern(n enc.Name) string {
 	in := make(iname, len(n))
 	for i, c := range n {
+		if k, ok := func() (int, bool) {
+			for k, tc := range typedComps {
+				if tc.typ == c.Typ && string(tc.val) == string(c.Val) {
+					return k, true
+				}
+			}
+			return 0, false
+		}(); ok {
+			in[i] = k
+			continue
+		}
 		if len(c.Val) >= 65535 && c.Typ == enc.TypeGenericNameComponent {
 			found := false
 			for k, l := range longLen {
@@ -484,7 +512,20 @@ func guarded(x *obsCtx, what string, f func()) {
 	f()
 }
 
+// caseBudget: wall-clock budget of one history; a slow implementation is reported as slow instead of hanging the check
+var caseBudget = 4 * time.Second
+
+// slowSeen: a history ran over its budget; no further histories with very long components are generated in this run
+var slowSeen bool
+
 func runCase(w *bufio.Writer, c *tcase) {
+	started := time.Now()
+	defer func() {
+		if d := time.Since(started); d > caseBudget {
+			slowSeen = true
+			fmt.Fprintf(w, "C %s-slow %d %s %s\nX - slow: the history %s (%d operations) took %v, budget %v\nE\n", c.id, c.m, c.kind, c.impls, c.id, len(c.ops), d.Round(time.Millisecond), caseBudget)
+		}
+	}()
 	fmt.Fprintf(w, "C %s %d %s %s\n", c.id, c.m, c.kind, c.impls)
 	us := make([]string, len(c.universe))
 	for i, n := range c.universe {
@@ -533,6 +574,9 @@ func runCase(w *bufio.Writer, c *tcase) {
 		ctxs = append(ctxs, x)
 	}
 	for _, o := range c.ops {
+		if time.Since(started) > caseBudget {
+			break // reported as slow by the deferred check
+		}
 		fmt.Fprintf(w, "O %s\n", o.String())
 		for _, x := range ctxs {
 			// the tree's dump hook reads the package global
@@ -654,13 +698,42 @@ func (g *gen) withLong(pfx []iname) []iname {
 	return out
 }
 
+// withTyped: under one parent, siblings that differ only in component type or in the byte form of the same number
+func (g *gen) withTyped(pfx []iname) []iname {
+	out := append([]iname{}, pfx...)
+	for j := 0; j < 2; j++ {
+		b := pfx[g.r.Intn(len(pfx))]
+		if len(b) >= 6 {
+			continue
+		}
+		ks := g.r.Perm(9)[:3+g.r.Intn(3)]
+		for _, k := range ks {
+			n := append(append(iname{}, b...), 61+k)
+			out = append(out, n)
+			if g.r.Intn(3) == 0 {
+				out = append(out, append(append(iname{}, n...), 1+g.r.Intn(2)))
+			}
+		}
+	}
+	return out
+}
+
 func (g *gen) fibCase(id string, m int) *tcase {
 	pfx := g.prefixes()
-	if g.r.Intn(6) == 0 {
-		pfx = g.withLong(pfx)
+	long := false
+	switch g.r.Intn(12) {
+	case 0:
+		if !slowSeen {
+			pfx, long = g.withLong(pfx), true
+		}
+	case 1, 2, 3:
+		pfx = g.withTyped(pfx)
 	}
 	c := &tcase{id: id, m: m, kind: "fib", impls: "TH", universe: g.universe(pfx)}
 	nops := 10 + g.r.Intn(51)
+	if long {
+		nops = 8 + g.r.Intn(8) // very long components make every operation expensive: short histories
+	}
 	unsetRoot := g.r.Intn(10) == 0 // adversarial stream: the root strategy may be unset
 	for i := 0; i < nops; i++ {
 		var n iname
@@ -693,16 +766,58 @@ var origins = []uint64{0, 0, 65, 128, 255}
 
 func (g *gen) ribCase(id string, m int, impl string) *tcase {
 	pfx := g.prefixes()
+	if g.r.Intn(4) == 0 {
+		pfx = g.withTyped(pfx)
+	}
 	c := &tcase{id: id, m: m, kind: "rib", impls: impl, universe: g.universe(pfx)}
+	type reg struct {
+		n            iname
+		face, origin uint64
+	}
+	var live []reg
+	add := func(n iname, face, origin, cost, flags uint64) {
+		c.ops = append(c.ops, op{"reg", n, []uint64{face, origin, cost, flags}})
+		live = append(live, reg{n, face, origin})
+	}
+	// one history in three starts from a nested chain: child-inherit routes above, a CAPTURE-ONLY (flags = 2) or other
+	// route in the middle, own routes below -- and then takes routes away again, middle ones first
+	if g.r.Intn(3) == 0 {
+		var chain []iname
+		for _, p := range pfx {
+			ok := true
+			for _, q := range chain {
+				if !(len(q) < len(p) && iname(p[:len(q)]).String() == q.String()) {
+					ok = false
+				}
+			}
+			if ok && (len(chain) == 0 || len(p) > len(chain[len(chain)-1])) {
+				chain = append(chain, p)
+			}
+		}
+		if len(chain) >= 3 {
+			top, mid, low := chain[0], chain[len(chain)/2], chain[len(chain)-1]
+			add(top, 1, 0, g.pick(costs), 1)
+			add(mid, 2, 0, g.pick(costs), []uint64{2, 2, 2, 3, 0}[g.r.Intn(5)])
+			add(low, 3, 0, g.pick(costs), uint64(g.r.Intn(2)))
+			if g.r.Intn(2) == 0 {
+				add(mid, 4, 65, g.pick(costs), 1)
+			}
+			c.ops = append(c.ops, op{"unreg", mid, []uint64{2, 0}})
+		}
+	}
 	nops := 6 + g.r.Intn(35)
 	for i := 0; i < nops; i++ {
 		n := pfx[g.r.Intn(len(pfx))]
 		face := uint64(1 + g.r.Intn(4))
 		origin := g.pick(origins)
 		switch k := g.r.Intn(100); {
-		case k < 55:
-			c.ops = append(c.ops, op{"reg", n, []uint64{face, origin, g.pick(costs), uint64(g.r.Intn(4))}})
+		case k < 50:
+			add(n, face, origin, g.pick(costs), uint64(g.r.Intn(4)))
 		case k < 88:
+			if len(live) > 0 && g.r.Intn(5) != 0 { // mostly a route that is (or was) registered
+				r := live[g.r.Intn(len(live))]
+				n, face, origin = r.n, r.face, r.origin
+			}
 			c.ops = append(c.ops, op{"unreg", n, []uint64{face, origin}})
 		default:
 			c.ops = append(c.ops, op{"cleanup", nil, []uint64{face}})
